@@ -893,6 +893,33 @@ func RegisterAPI(apiPkg string) {
 		}
 		return n + 1 // natively the caller itself (and the test runner) are counted: only differences are compared
 	}
+	O[p+"VerifStable"] = func(fr *frame, args []value) value {
+		label := strArg(args[0], "Stable label")
+		val, ok := args[1].(string)
+		if !ok {
+			panic(pathEnd{kind: Inconclusive, msg: "VerifStable on a symbolic value"})
+		}
+		r := fr.i.run
+		r.mu.Lock()
+		if r.stable == nil {
+			r.stable = map[string]string{}
+		}
+		key := label
+		for k, v := range fr.i.tags {
+			if !strings.HasPrefix(k, "__") {
+				key += "|" + k + "=" + v
+			}
+		}
+		first, seen := r.stable[key]
+		if !seen {
+			r.stable[key] = val
+		}
+		r.mu.Unlock()
+		if seen && first != val {
+			fr.i.violation("unstable", label, fmt.Sprintf("two executions differ: %q vs %q", first, val), nil)
+		}
+		return nil
+	}
 	O[p+"VerifSteps"] = func(fr *frame, args []value) value { return fr.i.steps }
 	O[p+"VerifIsSymbolic"] = func(fr *frame, args []value) value { return true }
 	O[p+"VerifPanics"] = func(fr *frame, args []value) value {
